@@ -44,10 +44,36 @@ fn refuse_now() -> bool {
     false
 }
 
+/// With the `odd_alloc` feature every align-1 request (byte buffers: `Vec<u8>`, `String`) is
+/// served one octet into an 8-aligned block, i.e. at an odd address. Perfectly legal for an
+/// allocator; code that assumes heap byte buffers are word aligned is not.
+const ODD: bool = cfg!(feature = "odd_alloc");
+
+#[inline]
+fn odd(l: &Layout) -> Option<Layout> {
+    if ODD && l.align() == 1 && l.size() > 0 {
+        Layout::from_size_align(l.size() + 8, 8).ok()
+    } else {
+        None
+    }
+}
+
 unsafe impl GlobalAlloc for CountingAlloc {
     unsafe fn alloc(&self, l: Layout) -> *mut u8 {
         if refuse_now() {
             return std::ptr::null_mut();
+        }
+        if let Some(big) = odd(&l) {
+            let p = System.alloc(big);
+            if p.is_null() {
+                return p;
+            }
+            if TRACK.load(Ordering::Relaxed) {
+                LIVE_BLOCKS.fetch_add(1, Ordering::Relaxed);
+                LIVE_BYTES.fetch_add(l.size() as i64, Ordering::Relaxed);
+                TOTAL_ALLOCS.fetch_add(1, Ordering::Relaxed);
+            }
+            return p.add(1);
         }
         let p = System.alloc(l);
         if !p.is_null() && TRACK.load(Ordering::Relaxed) {
@@ -58,6 +84,13 @@ unsafe impl GlobalAlloc for CountingAlloc {
         p
     }
     unsafe fn dealloc(&self, p: *mut u8, l: Layout) {
+        if let Some(big) = odd(&l) {
+            if TRACK.load(Ordering::Relaxed) {
+                LIVE_BLOCKS.fetch_sub(1, Ordering::Relaxed);
+                LIVE_BYTES.fetch_sub(l.size() as i64, Ordering::Relaxed);
+            }
+            return System.dealloc(p.sub(1), big);
+        }
         if TRACK.load(Ordering::Relaxed) {
             LIVE_BLOCKS.fetch_sub(1, Ordering::Relaxed);
             LIVE_BYTES.fetch_sub(l.size() as i64, Ordering::Relaxed);
@@ -67,6 +100,16 @@ unsafe impl GlobalAlloc for CountingAlloc {
     unsafe fn realloc(&self, p: *mut u8, l: Layout, new_size: usize) -> *mut u8 {
         if new_size > l.size() && refuse_now() {
             return std::ptr::null_mut();
+        }
+        if ODD && l.align() == 1 {
+            // move through alloc + copy + dealloc so that both ends follow the odd placement
+            let nl = Layout::from_size_align_unchecked(new_size, 1);
+            let q = if new_size == 0 { std::ptr::null_mut() } else { self.alloc(nl) };
+            if !q.is_null() {
+                std::ptr::copy_nonoverlapping(p, q, l.size().min(new_size));
+                self.dealloc(p, l);
+            }
+            return q;
         }
         let q = System.realloc(p, l, new_size);
         if !q.is_null() && TRACK.load(Ordering::Relaxed) {
